@@ -59,6 +59,37 @@ def pat_single_variant(pat):
     return None
 
 
+def reaches(F, src, dst, _memo={}):
+    key = (id(F), src, dst)
+    if key in _memo:
+        return _memo[key]
+    seen, todo = {src}, [src]
+    ok = False
+    while todo:
+        g = todo.pop()
+        if g == dst:
+            ok = True
+            break
+        for h in F.edges.get(g, ()):
+            if h not in seen:
+                seen.add(h)
+                todo.append(h)
+    _memo[key] = ok
+    return ok
+
+
+def can_reenter(F, f, c):
+    """the call may lead back into f: its callee reaches f in the call graph, or it is handed a function value
+    (the path walk is given the formula procedure as a `fn`)"""
+    for t in c.local_target or ():
+        if reaches(F, t, f.id):
+            return True
+        tf = F.fns.get(t)
+        if tf is not None and any("fn(" in (i or "") or "Fn" in (i or "") for i in (tf.inputs or [])):
+            return True
+    return False
+
+
 def run(cx, rep):
     F = cx.rs
     rep.explanation = (
@@ -189,7 +220,7 @@ def run(cx, rep):
         gets = [c for c in f.calls if (c.path or "").endswith("BTreeMap::<K, V, A>::get")]
         getmuts = [c for c in f.calls if (c.path or "").endswith("BTreeMap::<K, V, A>::get_mut")]
         comp = [c for c in f.calls if c.local_target and not (c.path or "").startswith("std::") and "MemoEmpty" not in (c.path or "")
-                and "clone" not in (c.path or "") and "deref" not in (c.path or "")]
+                and "clone" not in (c.path or "") and "deref" not in (c.path or "") and can_reenter(F, f, c)]
         def keyparam(c, idx):
             return sorted(o[1] for o in O.of_operand(c.term["args"][idx]) if o[0] == "param")
         kins = keyparam(ins[0], 1)
@@ -213,6 +244,9 @@ def run(cx, rep):
         ok = len(arms) == 1 and any((x.get("def") or "").endswith("IsEmptyStatus::IsEmpty") for x in walk(arms[0]["body"])) and \
             not any((x.get("def") or "").endswith("IsEmptyStatus::NotEmpty") for x in walk(arms[0]["body"]))
         rep.ob("C05.3", "%s/undefined-is-empty" % name, ok, "an in-progress (Undefined) entry must be read as IsEmpty (co-inductive hypothesis)", f.loc())
+
+    # ---------------------------------------------------------------- C05.12
+    revocable_memo_rule(F, rep, entries)
 
     # ---------------------------------------------------------------- C05.5
     rep.rule("C05.5", "polarity of the path walk in bdd_every_result")
@@ -873,3 +907,184 @@ def mixed_family_arm_rule(cx, rep, rid):
                        "%s binds the table index of the atom families %s to one name and then uses %s: the index of one family is read in another family's table (a Set is materialised from the array that happens to have the same index)" % (
                            gid, sorted(fams), ms[0][1] if ms else ""), "%s:%s" % (f.file, a["line"]), sample={"fn": gid, "families": sorted(fams)})
     rep.ob(rid, "mixed-arms-scanned", True, sample={"arms_binding_two_families": n})
+
+
+# ---------------------------------------------------------------------------------------------------- C05.12
+def _walk_node_inlined(F, node, crate, depth, seen=None):
+    """walk() over a HIR subtree that also descends into local callees (depth levels); yields (node, owner)"""
+    seen = seen if seen is not None else set()
+    for n in walk(node):
+        yield n, None
+        if depth > 0 and n["k"] in ("Call", "MethodCall"):
+            cal = n.get("callee") if n["k"] == "Call" else (n.get("resolved") or n.get("callee"))
+            tg = F._callee_gid(crate, cal) if cal else None
+            if tg in F.hir and tg not in seen:
+                seen.add(tg)
+                for x, o in _walk_node_inlined(F, F.hir[tg]["body"], crate, depth - 1, seen):
+                    yield x, (o or tg)
+
+
+def _ctx_field(n):
+    """name of the SemTypeContext field a receiver expression denotes (through & / deref), else None"""
+    while n is not None and n.get("k") in ("AddrOf", "Unary", "Deref", "DropTemps") and isinstance(n.get("e"), dict):
+        n = n["e"]
+    if n is not None and n.get("k") == "Field" and (n.get("adt") or "").endswith("SemTypeContext"):
+        return n["name"]
+    return None
+
+
+def revocable_memo_rule(F, rep, entries):
+    """While an emptiness question about a recursive type is open the type is ASSUMED empty (the Undefined mark is
+    read as IsEmpty).  An inner `empty` answer computed meanwhile may rest on that assumption; if the outer question
+    turns out NOT empty the assumption is refuted and the inner answer must not stay in the memo (fix 16acbbb:
+    `[Y, X] extends never` was decided differently from `[X, Y] extends never`).  Accepted idioms: (i) a revocation
+    log - `empty` answers are pushed onto a Vec field of the context, the entry point takes the log's length BEFORE the
+    computation and, on the not-empty outcome, hands it to a function that pops the log back to that length and removes
+    each popped key from the memo table its entry point memoises in; (ii) the not-empty outcome clears the memo tables."""
+    rep.rule("C05.12", "an `empty` answer memoised while an outer emptiness question is open is revoked when that question turns out not empty")
+    for f, ins in entries:
+        name = f.id
+        tree = F.hir.get(f.id)
+        if tree is None:
+            rep.anchor_missing("C05.12", "typed HIR of %s" % name)
+            continue
+        body = tree["body"]
+        # the memo table of this entry point and its key: the insert of MemoEmpty::Undefined
+        memo_field, key_lids = None, set()
+        for n in walk(body):
+            if n["k"] == "MethodCall" and n.get("method") == "insert" and any((x.get("def") or "").endswith("MemoEmpty::Undefined") for a in n["args"] for x in walk(a)):
+                memo_field = _ctx_field(n["recv"])
+                key_lids = {x.get("lid") for x in walk(n["args"][0]) if x["k"] == "Path" and x.get("res") == "local"}
+        if memo_field is None:
+            rep.anchor_missing("C05.12", "the Undefined insert of %s in typed HIR" % name)
+            continue
+        # the computation: the let-bound IsEmptyStatus computed by a call that may re-enter (first IsEmptyStatus-typed let whose
+        # initialiser calls a local function), found at the top level of the body
+        stmts = body["block"]["stmts"] if body.get("k") == "BlockExpr" else []
+        comp_i, comp_lid = None, None
+        for i, st in enumerate(stmts):
+            if st["k"] == "LetStmt" and st.get("init") and st["pat"]["k"] == "P.Binding" and (st["pat"].get("ty") or "").endswith("IsEmptyStatus"):
+                if any(x["k"] in ("Call", "MethodCall") and F._callee_gid(f.crate, (x.get("callee") if x["k"] == "Call" else (x.get("resolved") or x.get("callee"))) or "") in F.hir
+                       for x in walk(st["init"])):
+                    comp_i, comp_lid = i, st["pat"].get("lid")
+                    break
+        if comp_i is None:
+            rep.anchor_missing("C05.12", "the let-bound result of the emptiness computation in %s" % name)
+            continue
+        # outcome dispatch on the computed status after the computation
+        not_empty_regions, empty_regions = [], []
+        for st in stmts[comp_i + 1:]:
+            for n in walk(st):
+                if n["k"] == "Match" and any(x["k"] == "Path" and x.get("lid") == comp_lid for x in walk(n["scrut"])):
+                    for a in n["arms"]:
+                        d = (a["pat"].get("def") or "")
+                        if d.endswith("IsEmptyStatus::NotEmpty"):
+                            not_empty_regions.append(a["body"])
+                        elif d.endswith("IsEmptyStatus::IsEmpty"):
+                            empty_regions.append(a["body"])
+                        elif a["pat"]["k"] in ("P.Wild", "P.Binding"):
+                            # the catch-all stands for whichever outcome is not named
+                            named = {(b["pat"].get("def") or "").rsplit("::", 1)[-1] for b in n["arms"]}
+                            (empty_regions if "NotEmpty" in named else not_empty_regions).append(a["body"])
+                if n["k"] == "If" and n["cond"]["k"] in ("Binary", "Let", "Call", "MethodCall", "Unary") and \
+                        any(x["k"] == "Path" and x.get("lid") == comp_lid for x in walk(n["cond"])):
+                    defs = [(x.get("def") or "") for x in walk(n["cond"])]
+                    neg = n["cond"]["k"] == "Unary" or (n["cond"]["k"] == "Binary" and n["cond"].get("op") == "Ne")
+                    is_ne = any(d.endswith("IsEmptyStatus::NotEmpty") for d in defs)
+                    is_e = any(d.endswith("IsEmptyStatus::IsEmpty") for d in defs)
+                    if is_ne or is_e:
+                        then_is_not_empty = (is_ne and not neg) or (is_e and neg)
+                        (not_empty_regions if then_is_not_empty else empty_regions).append(n["then"])
+                        if n.get("else"):
+                            (empty_regions if then_is_not_empty else not_empty_regions).append(n["else"])
+        # (1) the not-empty outcome revokes
+        revokers, cleared = [], False
+        for reg in not_empty_regions:
+            for x, owner in _walk_node_inlined(F, reg, f.crate, 2):
+                if x["k"] == "MethodCall" and x.get("method") in ("remove", "clear", "retain", "split_off", "remove_entry") and _ctx_field(x["recv"]) == memo_field:
+                    if x.get("method") == "clear":
+                        cleared = True
+                    revokers.append((x, owner))
+        rep.ob("C05.12", "%s/not-empty-revokes" % name, bool(revokers),
+               "the not-empty outcome of %s removes nothing from %s: `empty` answers computed under the refuted assumption that this type is empty stay memoised "
+               "(accepted: a revocation log popped back to the length taken before the computation, or clearing the table)" % (name, memo_field),
+               f.loc(), sample={"fn": name, "memo": memo_field, "revoking_sites": len(revokers), "not_empty_regions": len(not_empty_regions)})
+        if not revokers or cleared:
+            continue
+        # the revocation log idiom
+        call_with_mark = None
+        for reg in not_empty_regions:
+            for x in walk(reg):
+                if x["k"] in ("Call", "MethodCall"):
+                    cal = x.get("callee") if x["k"] == "Call" else (x.get("resolved") or x.get("callee"))
+                    tg = F._callee_gid(f.crate, cal or "")
+                    if tg in F.hir and any(y["k"] == "MethodCall" and y.get("method") in ("remove", "remove_entry") and _ctx_field(y["recv"]) == memo_field
+                                           for y, _ in _walk_node_inlined(F, F.hir[tg]["body"], f.crate, 1)):
+                        call_with_mark = (x, tg)
+        if call_with_mark is None:
+            # removal spelled inline in the entry point: judged by (2)..(4) on the entry point itself
+            call_with_mark = (None, f.id)
+        cx, g = call_with_mark
+        gtree = F.hir[g]
+        # (2) the mark: an argument of the revoker call that is a local bound from `<log>.len()` BEFORE the computation
+        log_field, mark_ok, mark_pos = None, False, None
+        if cx is not None:
+            args = ([cx["recv"]] if cx["k"] == "MethodCall" else []) + list(cx["args"])
+            for ai, a in enumerate(args):
+                for y in walk(a):
+                    if y["k"] == "Path" and y.get("res") == "local":
+                        for i, st in enumerate(stmts):
+                            if st["k"] == "LetStmt" and st["pat"]["k"] == "P.Binding" and st["pat"].get("lid") == y.get("lid") and st.get("init"):
+                                lens = [z for z in walk(st["init"]) if z["k"] == "MethodCall" and z.get("method") == "len" and _ctx_field(z["recv"])]
+                                if lens:
+                                    log_field = _ctx_field(lens[0]["recv"])
+                                    mark_ok = i < comp_i
+                                    mark_pos = ai
+        rep.ob("C05.12", "%s/mark-before-computation" % name, mark_ok,
+               "the revocation in %s is not bounded by a length of the log taken before the computation started: answers recorded before this question was opened "
+               "would be revoked too, or (mark taken afterwards) none at all" % name, f.loc(), sample={"fn": name, "log": log_field, "mark_taken_before_computation": mark_ok})
+        # (3) the empty outcome is logged with this entry point's key
+        pushed_variants = set()
+        for reg in empty_regions:
+            for x in walk(reg):
+                if x["k"] == "MethodCall" and x.get("method") == "push" and _ctx_field(x["recv"]) == (log_field or _ctx_field(x["recv"])):
+                    for y in walk(x["args"][0]):
+                        if y["k"] in ("Call", "Struct") and (y.get("callee") or y.get("def") or "").startswith("subtyping::"):
+                            keys = {z.get("lid") for z in walk(y) if z["k"] == "Path" and z.get("res") == "local"}
+                            if keys & key_lids:
+                                pushed_variants.add((y.get("callee") or y.get("def")))
+        rep.ob("C05.12", "%s/empty-answer-logged" % name, bool(pushed_variants),
+               "the `empty` outcome of %s is not recorded in the revocation log under the key it is memoised under: a later refutation cannot find it" % name,
+               f.loc(), sample={"fn": name, "logged_as": sorted(pushed_variants)})
+        # (4) the revoker pops the log back to the mark and removes, for the variant this entry point logs, from this entry point's table
+        ok_family = False
+        for n in walk(gtree["body"]):
+            if n["k"] == "Match":
+                for a in n["arms"]:
+                    if any((y.get("def") or "") in pushed_variants for y in walk(a["pat"])):
+                        bound = {y.get("lid") for y in walk(a["pat"]) if y["k"] == "P.Binding"}
+                        for y in walk(a["body"]):
+                            if y["k"] == "MethodCall" and y.get("method") in ("remove", "remove_entry") and _ctx_field(y["recv"]) == memo_field and \
+                                    bound & {z.get("lid") for z in walk(y["args"][0]) if z["k"] == "Path" and z.get("res") == "local"}:
+                                ok_family = True
+        rep.ob("C05.12", "%s/revoker-removes-from-own-table" % name, ok_family,
+               "the revoker %s does not remove the keys logged by %s (%s) from %s, the table %s memoises in" % (g, name, sorted(pushed_variants), memo_field, name),
+               F.fns[g].loc() if g in F.fns else f.loc(), sample={"fn": name, "revoker": g, "memo": memo_field})
+        if g != f.id and mark_pos is not None:
+            gp = gtree["params"]
+            mlid = gp[mark_pos].get("lid") if mark_pos < len(gp) and gp[mark_pos]["k"] == "P.Binding" else None
+            bounded = False
+            for n in walk(gtree["body"]):
+                if n["k"] == "Binary" and n.get("op") in ("Gt", "Ge", "Lt", "Le", "Ne"):
+                    sides = [n["l"], n["r"]]
+                    plain = [s for s in sides if s["k"] == "Path" and s.get("lid") == mlid]
+                    lens = [s for s in sides if s["k"] == "MethodCall" and s.get("method") == "len" and _ctx_field(s["recv"]) == log_field]
+                    if plain and lens:
+                        bounded = True
+                if n["k"] == "MethodCall" and n.get("method") in ("drain", "split_off", "truncate") and _ctx_field(n["recv"]) == log_field:
+                    a0 = n["args"][0] if n["args"] else None
+                    if a0 is not None and any(z["k"] == "Path" and z.get("lid") == mlid for z in walk(a0)) and not any(z["k"] == "Binary" for z in walk(a0)):
+                        bounded = True
+            rep.ob("C05.12", "%s/revoker-pops-to-mark" % name, bounded,
+                   "the revoker %s does not walk the log back to exactly the length it is handed (compare `log.len()` with the plain mark, or drain / split_off at it)" % g,
+                   F.fns[g].loc() if g in F.fns else f.loc(), sample={"revoker": g, "log": log_field})
